@@ -59,6 +59,11 @@ def run(ctx):
     stats = ctx.path("stats-events.json")
     ctx.drv(["events", "-rounds", "20" if t else "5", "-ops", "60" if t else "40", "-out", raw, "-stats", stats], timeout=1500)
     st = json.load(open(stats))
+    for u in st.get("Unregistered") or []:
+        # Events.tla's DoEmit presupposes a control connection that REGISTERed: without one no schema change can reach anybody
+        ctx.violation("C14:control-connection-not-registered:%s" % re.sub(r"[^a-z0-9=]+", "-", re.sub(r"round \d+ ", "", u)).strip("-"),
+                      "the proxy holds a control connection (no outage) that never sent REGISTER: schema changes cannot reach any client (%s)" % u,
+                      replay={"what": u})
     events, nemit, nrecv = normalise(core.read_ndjson(raw))
     if nemit < 10 or nrecv < 5:
         raise core.Inconclusive("driver produced too few events (%d emitted, %d received)" % (nemit, nrecv))
